@@ -1,4 +1,5 @@
 import PbVerif.Lemmas.Wrapper
+import PbVerif.Gen.Wrappers
 /-! C16 — equivalent ways of supplying the same inputs give the same result: the container- and
 layout-independent part of the wrapper (the numerical core sees the canonical array in every case). -/
 namespace PbVerif.C16
@@ -34,5 +35,21 @@ theorem getMethod_total (lower : String → String) (reg : List String) (name : 
     getMethod lower reg name = some (lower name) := Lemmas.getMethod_total lower reg name h
 
 example : forward ["data", "lam", "p", "x_data"] [5, 7] [("x_data", 3), ("p", 1)] = some (some 3, [("data", 5), ("lam", 7), ("p", 1)]) := by decide +kernel
+
+/-! ### table obligation over the regenerated table of module-level functions (Route A, `Gen/Wrappers`)
+`classWrapper_forwards` says that binding by NAME makes the positional / keyword split irrelevant — provided the function and
+the method name their parameters alike. That premise is read from the imported package on every run. -/
+/-- the one documented exception to the common ORDER: `interp_pts(x_data, baseline_points, …, data=None)` -/
+def orderFree : List String := ["interp_pts"]
+
+open PbVerif.Gen in
+def wrapperOk (r : WrapperRow) : Bool :=
+  r.hasFunction && r.hasXData && r.fnSorted == r.methSorted && (orderFree.contains r.name || r.fnParams == r.methParams) &&
+  r.methParams.Nodup
+
+open PbVerif.Gen in
+/-- every public 1-D method has a module-level function taking `x_data` whose other parameters are the method's: the same names
+with the same defaults, in the same order (so a positional call means the same for both) -/
+theorem wrappers_match : wrappers.all wrapperOk = true ∧ wrappersTranslated = true ∧ 60 ≤ wrappers.length := by decide +kernel
 
 end PbVerif.C16
